@@ -26,10 +26,10 @@ def fieldnames(loc):
     return [p[2] for p in loc[1] if isinstance(p, tuple) and p[0] == "f"]
 
 
-def run_hook_closure(ctx, cpath, extra=None, oracle=None):
+def run_hook_closure(ctx, cpath, extra=None, oracle=None, mem_fail_paths=False):
     facts = ctx.facts
     b = facts.bodies[cpath]
-    pr = P.HandlerPrims(facts, ctx.roles)
+    pr = P.HandlerPrims(facts, ctx.roles, mem_fail_paths=mem_fail_paths)
 
     def icpt(I, path, frame, t, name, args):
         if extra is not None:
@@ -231,7 +231,10 @@ def run(ctx):
                         m_bad = m_bad or "brk(p), %s: returns %s, expected p" % (cname, A.show(raxw[0][3]) if raxw else None)
                     ri = evs.index(rs[0])
                     ls = [i for i, e in enumerate(evs) if e[0] == "store" and fieldnames(e[1])[-1:] == ["brk_length"] and i > ri]
-                    if not ls:
+                    early0 = [i for i, e in enumerate(evs) if e[0] == "store" and fieldnames(e[1])[-1:] == ["brk_length"] and i < ri and not did_alloc]
+                    if early0:
+                        m_bad = m_bad or "brk_length updated before the resize succeeded (a refused resize leaves the new length behind)"
+                    elif not ls:
                         m_bad = m_bad or "brk_length not updated after a successful resize"
                     elif not U.affine_eq(evs[ls[-1]][2], rs[0][2]):
                         m_bad = m_bad or "brk_length := %s differs from the resized size" % A.show(evs[ls[-1]][2])
